@@ -26,12 +26,17 @@ var (
 	flagVerbose  = flag.Bool("v", false, "print every obligation")
 	flagNoCtl    = flag.Bool("nocontrols", false, "skip positive controls")
 	flagDump     = flag.String("dump", "", "debug: effects | roots | reach")
+	flagGenMan   = flag.Bool("genmanifest", false, "print MANIFEST.json generated from the property table")
 )
 
 func main() {
 	flag.Parse()
 	if *flagList {
 		listAll()
+		return
+	}
+	if *flagGenMan {
+		genManifest()
 		return
 	}
 	if *flagDump != "" {
@@ -142,7 +147,8 @@ func runProperty(id, tier string) int {
 	if err != nil {
 		return fail("load", err)
 	}
-	run := runRules(prog, prop.Rules)
+	rules, planned := prop.implementedRules()
+	run := runRules(prog, rules)
 
 	configs := []string{defaultConfig.String()}
 	var extraObs []Obligation
@@ -153,7 +159,7 @@ func runProperty(id, tier string) int {
 				extraObs = append(extraObs, Obligation{Rule: "LOAD", Construct: "config:" + bc.String(), Status: stUndecided, Pos: "-", Detail: err.Error()})
 				continue
 			}
-			r2 := runRules(p2, prop.Rules)
+			r2 := runRules(p2, rules)
 			configs = append(configs, bc.String())
 			// only report what differs from the default configuration
 			base := map[string]string{}
@@ -211,7 +217,7 @@ func runProperty(id, tier string) int {
 	// ---- positive controls ----
 	var ctlResults []map[string]interface{}
 	if !*flagNoCtl {
-		ctlResults = runControls(id, tier, prop.Rules)
+		ctlResults = runControls(id, tier, rules)
 	}
 
 	// ---- output ----
@@ -242,7 +248,7 @@ func runProperty(id, tier string) int {
 	// ---- evidence ----
 	samples := sampleObs(obs, 14)
 	ruleDocs := map[string]string{}
-	for _, rn := range prop.Rules {
+	for _, rn := range rules {
 		if rl := ruleTable[rn]; rl != nil {
 			ruleDocs[rn] = rl.Doc
 		}
@@ -265,6 +271,7 @@ func runProperty(id, tier string) int {
 		"program_functions":   prog.nAllFuncs,
 		"configs":             configs,
 		"controls":            ctlResults,
+		"rules_not_built":     planned,
 		"checker_cmd":         fmt.Sprintf("/verif/bin/larkcheck -property %s -tier %s", id, tier),
 		"trusted_base":        []string{"go/types", "go/ssa", "golang.org/x/tools v0.29.0 (vta/cha call graph)", "contract tables for library calls (DESIGN.md section 8)", "larkcheck itself"},
 	}
@@ -278,7 +285,7 @@ func runProperty(id, tier string) int {
 		return 2
 	}
 	fmt.Printf("%s %s: %d obligations, %d discharged, %d known, %d violated; rules=%d controls=%d wall=%.1fs\n",
-		id, tier, nObl, nOK, nKnown, nViol, len(prop.Rules), len(ctlResults), time.Since(t0).Seconds())
+		id, tier, nObl, nOK, nKnown, nViol, len(rules), len(ctlResults), time.Since(t0).Seconds())
 	if nViol > 0 {
 		return 1
 	}
